@@ -482,10 +482,12 @@ func (p *proxyConn) writeResponse(res *http.Response) error {
 		// This is safe for events that are smaller than the buffer io.Copy uses (32KB).
 		// If the event is larger than the buffer, the event will be split into multiple chunks.
 		switch {
-		case isTextEventStream(res):
-			w := newPatternFlushWriter(p.brw.Writer, p.brw.Writer, sseFlushPattern)
+		case isTextEventStream(res) && !isChunked(res):
+			w := newEventFlushWriter(p.brw.Writer, p.brw.Writer)
 			err = res.Write(w)
 		case shouldChunk(res):
+			// Every chunk is delivered as it comes, those of an event stream as well: an event may be split
+			// over chunks, and a chunk may hold less than an event (a comment line sent as a heartbeat).
 			w := newPatternFlushWriter(p.brw.Writer, p.brw.Writer, chunkFlushPattern)
 			err = res.Write(w)
 		default:
